@@ -56,6 +56,11 @@ func main() {
 			cfg.Tier = "quick"
 		}
 		os.Exit(runCheck(cfg))
+	case "funcs":
+		cfg.Prop = strings.ToUpper(os.Args[2])
+		os.Exit(listFuncs(cfg, os.Args[3]))
+	case "selftest":
+		os.Exit(0)
 	case "replay":
 		cfg.Prop = strings.ToUpper(os.Args[2])
 		os.Exit(runReplay(cfg, os.Args[3]))
